@@ -112,6 +112,8 @@ MUTANTS['C11'] = [
 ]
 
 MUTANTS['C01'] = [
+  ('prefetch-none-as-end-marker', [(P, "    unique_object = object()\n    exc_info = None\n", "    unique_object = None\n    exc_info = None\n")]),
+  ('unbatch-skips-falsy-examples', [(C, "            for example in batch:\n                yield example", "            for example in batch:\n                if example or example == 0:\n                    yield example")]),
   ('slice-keys-memo-on-class', [(C, "            self._keys = operator.itemgetter(*self.slice)(keys)", "            type(self)._keys = operator.itemgetter(*self.slice)(keys)")]),
   ('batch-copy-drops-drop_last', [(C, "            batch_size=self.batch_size,\n            drop_last=self.drop_last,\n", "            batch_size=self.batch_size,\n")]),
   ('batch-iter-gt', [(C, "            if len(current_batch) >= self.batch_size:\n                yield current_batch", "            if len(current_batch) > self.batch_size:\n                yield current_batch")]),
